@@ -26,7 +26,7 @@ SAMPLE = [(), (1,), (2,), (2, 3)]
 
 def bounds(tier):
     return {"event_shapes": EVENTS, "cond_shapes": CONDS, "batch_shapes": BATCH, "sample_shapes": SAMPLE,
-            "distributions": ["Transformed(Normal(distinct loc/scale), AdditiveCondition(distinct weights))", "conditional coupling flow"],
+            "distributions": ["Transformed(Normal(distinct loc/scale), AdditiveCondition(distinct weights))", "conditional coupling flow", "LogNormal (restricted support: batches mix in- and out-of-support points)"],
             "exhaustive_within_bounds": True}
 
 
@@ -36,6 +36,9 @@ def enumerate_cases(tier, seed):
         for c in CONDS:
             cases.append({"id": f"affine|event={e}|cond={c}", "kind": "affine", "event": list(e), "cond": None if c is None else list(c),
                           "x64": True, "seed": seed})
+    for e in [(), (2,)]:
+        # restricted support: batches mix in-support and out-of-support (NaN -> -inf) elements
+        cases.append({"id": f"lognormal|event={e}", "kind": "lognormal", "event": list(e), "cond": None, "x64": True, "seed": seed})
     for dim in (2, 3):
         for c in (None, (2,)):
             cases.append({"id": f"coupling|dim={dim}|cond={c}", "kind": "coupling", "event": [dim], "cond": None if c is None else list(c),
@@ -68,6 +71,10 @@ def build(case):
             return base, loc, scale, None
         net = _cond_map(e, c, 2.0)
         return D.Transformed(base, B.AdditiveCondition(net, e, c)), loc, scale, net
+    if case["kind"] == "lognormal":
+        loc = jnp.asarray((0.3 * _pat(n, 1)).reshape(e))
+        scale = jnp.asarray((0.5 + 0.35 * np.arange(n)).reshape(e))
+        return D.LogNormal(loc, scale), None, None, None
     d = flows.coupling_flow(jax.random.PRNGKey(case["seed"] + 5), base_dist=D.StandardNormal(e), cond_dim=None if c is None else c[0],
                             flow_layers=2, nn_width=4)
     from mc.params import perturb
@@ -105,7 +112,8 @@ def run_case(case):
 
     def close(a, b):
         a, b = np.asarray(a, float), np.asarray(b, float)
-        return a.shape == b.shape and bool(np.all(np.abs(a - b) <= 1e-10 * (1 + np.abs(b))))
+        with np.errstate(invalid="ignore"):
+            return a.shape == b.shape and bool(np.all((np.abs(a - b) <= 1e-10 * (1 + np.abs(b))) | (a == b)))
 
     unb_lp = jax.jit(lambda x, cc: dist.log_prob(x, cc)) if True else None
     # ---- log_prob: every broadcasting pair
@@ -170,10 +178,12 @@ def run_case(case):
         # independent randomness: standardised residuals pairwise distinct across batch elements
         if prod(lead) > 1:
             tr += 1
-            if case["kind"] == "affine":
+            if case["kind"] == "lognormal":
+                z = np.log(s)
+            elif case["kind"] == "affine":
                 shift = 0.0 if net is None else np.asarray(jax.vmap(net)(jnp.asarray(Cb.reshape((-1,) + c))), float).reshape(lead + e)
                 z = (s - np.asarray(loc) - shift) / np.asarray(scale)
-            else:
+            if case["kind"] == "coupling":
                 z = s  # coupling flow: raw samples must already be pairwise distinct
             flat = z.reshape(prod(lead), -1)[:, 0]
             if len(np.unique(np.round(flat, 9))) != len(flat):
